@@ -32,13 +32,17 @@ theorem resolveGate_phase (lib : Library A α) (ug : List (UserGate A α)) (r : 
 theorem resolveGate_library (lib : Library A α) (ug : List (UserGate A α)) (r : GateReq A)
     (hname : r.name ≠ "GLOBALPHASE") (hf : (ug.find? fun u => u.name == r.name) = none) :
     resolveGate lib ug r =
+      if r.fixedControlOK = false then .error .controlValue else
       match lib.compact r.name r.arg with
       | some (m, U) => .ok (.gate r.allQubits m U)
       | none => .error .unknownGate := by
   simp only [resolveGate, if_neg hname, getGateUnitary, lookup_map_kind, hf, Option.map_none]
-  cases lib.compact r.name r.arg with
-  | none => rfl
-  | some p => rfl
+  cases r.fixedControlOK with
+  | false => rfl
+  | true =>
+    cases lib.compact r.name r.arg with
+    | none => rfl
+    | some p => rfl
 
 /-- what a user entry stands for at the gate object `r`: the stored operator / `func()` / `func(arg_value)`,
 placed on `targets` -/
